@@ -1,6 +1,6 @@
 SPECIFICATION Spec
 CONSTANTS
-  KindSet = {"source", "handler", "processor", "buffer", "gate", "batcher", "sink", "maintainer", "scheduler", "psensor", "qsensor", "cms"}
+  KindSet = {"source", "handler", "processor", "buffer", "gate", "batcher", "sink", "maintainer", "scheduler", "psensor", "qsensor", "cms", "builder"}
   RunDurs = {0, 1, 2, 3}
   MaxOps = 14
   MaxAssets = 7
